@@ -244,6 +244,12 @@ pub fn main(mode: Mode) -> i32 {
             ctx.run_enum(&iso, corpus_cases());
             let n = ctx.n(4_000, 80_000);
             ctx.run_search(&iso, n, 160, 150);
+            if ctx.thorough() || std::env::var("VERIF_FUZZ").is_ok() {
+                // in-process (the fuzzer needs coverage feedback); artifacts are re-judged through the isolated path
+                let runs = ctx.n(20_000, 400_000) as u64;
+                let fp = FrontEnd { emit: true };
+                crate::fuzzsup::run_campaign(&mut ctx, &fp, &crate::fuzzsup::Campaign { target: "fuzz_sema", decode: crate::fuzzsup::decode_text_sema, runs, max_len: 2048, seeds: crate::fuzzsup::repo_seeds(1500, 200, b""), timeout: std::time::Duration::from_secs(5000) });
+            }
             ctx.extra.insert("isolation".into(), json!("every case is evaluated in a worker process; a dead worker is attributed to its case, a case over 60 s is killed and counted inconclusive"));
             ctx.require_class("front-end/recovered-parse-errors");
             ctx.require_class("front-end/semantic-errors-only");
